@@ -25,6 +25,7 @@ TEXTS = ["", " ", "x", "\"\\/\b\f\n\r\t", "\u00e9", "\u2028", "\U0001F600", "\x0
 DICTS = [[["k", "v"]], [["k", "v"], ["l", "w"]], [["l", "w"], ["k", "v"]], [["q\"uo'te", "v"]], [["", "v"]], [["k", ""]],
          [["{u1}x", "v"], ["p:x", "w"]], [["{http://www.w3.org/XML/1998/namespace}lang", "en"], ["xml:lang", "fr"]], [["p:x", "v"]]]
 NS = [[["p", "u1"]], [["p", "u2"]], [["p", "u1"], ["q", "u3"]], [["q", "u3"], ["p", "u1"]], [["null", "u9"], ["None", "u8"]]]
+NS_PRE = [[["q", "u3"]], [["p", "u2"], ["q", "u3"]]]
 NAMES = ["b", "a:b cé"]
 
 
@@ -42,6 +43,8 @@ def menu_for(path):
     out.append(["prefix", p, "p"])
     for v in NS:
         out.append(["ns", p, v])
+    for v in NS_PRE:
+        out.append(["ns_pre", p, v])
     out.append(["id", p, None])
     return out
 
@@ -89,9 +92,16 @@ def legacy_view(n):
 
 
 def check(g, case):
+    probs = check1(g, case, False)
+    if any(n["attrs"] and n["extras"] for _, n in gtree.walk(g)):
+        probs += check1(g, dict(case, extras_first=True), True)
+    return probs
+
+
+def check1(g, case, extras_first):
     probs = []
     core.reset_store()
-    t = gtree.build(g)
+    t = gtree.build(g, extras_first=extras_first)
     s1 = gtree.snap(t)
     ids1 = [n.id for n in gtree.preorder(t)]
 
@@ -131,6 +141,8 @@ def check(g, case):
             bad("registry_not_rebound", f"get_node_instance({n.id!r}) is the loaded node", "another object", codec="metapype_io")
             break
     # --- legacy codec --------------------------------------------------
+    if extras_first:
+        return probs
     core.reset_store()
     t = gtree.build(g)
     lv = legacy_view(t)
